@@ -40,6 +40,7 @@ class Fn:
         self.block_of = {}
         self.pos_of = {}
         self.ref_init = {}
+        self._maybe_const = []
         self.const_init = {}        # vid of a const-qualified local -> its initialiser (element id or inline node)
         for b in f.get('blocks', []):
             for pos, e in enumerate(b['el']):
@@ -51,9 +52,15 @@ class Fn:
                 if e['k'] == 'DeclStmt':
                     for d in e.get('decls', []):
                         if d.get('const') and d.get('init') is not None and not d.get('sl') and not d.get('t', '').endswith('&'):
-                            self.const_init[d['vid']] = d['init']
+                            self._maybe_const.append((d['vid'], d['init']))
                         elif d.get('t', '').endswith('&') and d.get('init') is not None and not d.get('sl'):
                             self.ref_init[d['vid']] = d['init']      # `T & r = <lvalue>;` -- an alias, resolved after the loop
+        self.value_init = {}        # const local initialised from a consuming read: stands for that read only in the value-forwarding spelling
+        for vid, init in self._maybe_const:
+            if not self._impure(init):
+                self.const_init[vid] = init
+            else:
+                self.value_init[vid] = init
         for vid, init in self.ref_init.items():
             n = self.strip_all_casts(init)
             if n['k'] in ('MemberExpr', 'ArraySubscriptExpr', 'DeclRefExpr') or (n['k'] == 'UnaryOperator' and n.get('op') == '*'):
@@ -75,6 +82,18 @@ class Fn:
         self.fx = None
         self._env = None
         self._uniform_locals()
+
+    def _impure(self, init):
+        """the initialiser has a side effect that makes two textually equal occurrences different values (be::read<T>(p) advances p,
+        x++, ...): a local holding it does not stand for the expression"""
+        for x in self.walk(init):
+            if x['k'] in ('CallExpr', 'CXXMemberCallExpr') and (x.get('fq') or '').split('<')[0].split('::')[-1] in ('read', 'skip') and 'be::' in (x.get('fq') or ''):
+                return True
+            if x['k'] == 'UnaryOperator' and x.get('op') in ('pre++', 'post++', 'pre--', 'post--'):
+                return True
+            if x['k'] in ('BinaryOperator', 'CompoundAssignOperator') and x.get('op', '').endswith('=') and x['op'] not in ('==', '!=', '<=', '>='):
+                return True
+        return False
 
     def _uniform_locals(self):
         """a non-const scalar/pointer local all of whose definitions are the same expression (`Slot *kid = s->firstChild();` ...
@@ -109,21 +128,37 @@ class Fn:
         for v, ds in defs.items():
             if v in bad or not ds:
                 continue
-            if len(ds) == 1 and decls[v].get('init') is None:
-                continue            # declared, assigned once somewhere: not necessarily before every use
+            if len(ds) == 1 and decls[v].get('init') is None and not (decls[v].get('n') or '').startswith('__ret_'):
+                continue            # declared, assigned once somewhere: not necessarily before every use (the result local of an
+                                    # inlined helper with one return is assigned exactly there)
             texts = {self.render(self.strip_all_casts(x)) for x in ds}
-            if len(texts) == 1 and not any(x['k'] == 'DeclRefExpr' and x.get('vid') == v for x in self.walk(ds[0])):
+            if len(texts) == 1 and not any(x['k'] == 'DeclRefExpr' and x.get('vid') == v for x in self.walk(ds[0])) and not self._impure(ds[0]):
                 self.const_init[v] = ds[0]
         self._env = None            # vid -> text while an inlined helper predicate is rendered in its caller's terms
 
-    def render_walk(self, n):
+    def render_walk(self, n, resolve=True):
         """resolved rendering in which `the element k places from the current position of a loop over array A` is spelled the same
         whether the loop walks a pointer (`o[1]`, `*o`) or an index (`A[i + 1]`, `A[i]`): A@[+k]"""
         old, self._walk = getattr(self, '_walk', False), True
         try:
-            return self.render(n, 0, True)
+            return self.render(n, 0, resolve)
         finally:
             self._walk = old
+
+    def _forwarded(self, n, depth, resolve):
+        """store-to-load forwarding inside one basic block: `*o = X; if (*o > m)` reads X"""
+        blk, pos = self._fwd
+        fw, self._fwd = self._fwd, None
+        try:
+            me = self.render(n, depth + 1, resolve)
+            for e in reversed(self.blocks[blk]['el'][:pos]):
+                if e['k'] == 'BinaryOperator' and e['op'] == '=' and self.is_root(e['i']) is not None:
+                    l = self.strip_all_casts(e['c'][0])
+                    if l['k'] in ('ArraySubscriptExpr', 'UnaryOperator') and self.render(l, depth + 1, resolve) == me:
+                        return self.render(self.strip_all_casts(e['c'][1]), depth + 1, resolve)
+            return None
+        finally:
+            self._fwd = fw
 
     def _walkers(self):
         if getattr(self, '_wk', None) is None:
@@ -192,6 +227,95 @@ class Fn:
             return self.render(n, 0, resolve)
         finally:
             self._env = old
+
+    def _predmap(self):
+        p = self.preds
+        return p() if callable(p) else p
+
+    def reaching_def(self, vid, use_id, all_defs=False):
+        """the initialiser / right-hand side that is the ONLY definition of local `vid` reaching element use_id (None when several
+        definitions, an update such as ++ / op=, or no definition can reach it)"""
+        rd = self.__dict__.setdefault('_rdefs', {})
+        if vid not in rd:
+            defs = {}       # element id -> rhs (or 'kill')
+            for _, e in self.elements():
+                if e['k'] == 'DeclStmt':
+                    for d in e.get('decls', []):
+                        if d.get('vid') == vid:
+                            defs[e['i']] = d.get('init') if d.get('init') is not None else 'kill'
+                elif e['k'] == 'BinaryOperator' and e['op'] == '=' and self.strip_all_casts(e['c'][0]).get('vid') == vid and \
+                        self.strip_all_casts(e['c'][0])['k'] == 'DeclRefExpr':
+                    defs[e['i']] = e['c'][1]
+                elif (e['k'] == 'CompoundAssignOperator' or (e['k'] == 'UnaryOperator' and e['op'] in ('pre++', 'post++', 'pre--', 'post--'))) and \
+                        self.strip_all_casts(e['c'][0]).get('vid') == vid:
+                    defs[e['i']] = 'kill'
+            last = {}
+            for b, blk in self.blocks.items():
+                l = None
+                for e in blk['el']:
+                    if e['i'] in defs:
+                        l = e['i']
+                last[b] = l
+            out = {b: set() for b in self.blocks}
+            changed = True
+            while changed:
+                changed = False
+                for b in self.blocks:
+                    if last[b] is not None:
+                        new = {last[b]}
+                    else:
+                        new = set()
+                        for p_ in self._predmap().get(b, []):
+                            new |= out[p_]
+                        if b == self.entry:
+                            new.add('undef')
+                    if new != out[b]:
+                        out[b] = new
+                        changed = True
+            rd[vid] = (defs, last, out)
+        defs, last, out = rd[vid]
+        b = self.block_of.get(use_id)
+        if b is None:
+            return None
+        pos = self.pos_of[use_id]
+        cand = None
+        for e in self.blocks[b]['el'][:pos]:
+            if e['i'] in defs:
+                cand = e['i']
+        if cand is None:
+            ins = set()
+            for p_ in self._predmap().get(b, []):
+                ins |= out[p_]
+            if b == self.entry:
+                ins.add('undef')
+            if all_defs:
+                if 'undef' in ins or any(defs.get(c) in (None, 'kill') for c in ins):
+                    return None
+                return sorted(ins)
+            if len(ins) != 1:
+                return None
+            cand = next(iter(ins))
+        if cand == 'undef' or defs.get(cand) in (None, 'kill'):
+            return None
+        return [cand] if all_defs else defs[cand]
+
+    def def_rhs(self, vid, def_id):
+        return self._rdefs[vid][0].get(def_id)
+
+    def elem_access(self, n):
+        """(base, index) when n is `base[index]` or `*(base + index)` / `*(index + base)`, else None"""
+        n = self.strip(n)
+        if n['k'] == 'ArraySubscriptExpr':
+            return n['c'][0], n['c'][1]
+        if n['k'] == 'UnaryOperator' and n['op'] == '*':
+            x = self.strip_all_casts(n['c'][0])
+            if x['k'] == 'BinaryOperator' and x['op'] == '+':
+                l, r_ = x['c'][0], x['c'][1]
+                if '*' in (self.strip_all_casts(l).get('t') or ''):
+                    return l, r_
+                if '*' in (self.strip_all_casts(r_).get('t') or ''):
+                    return r_, l
+        return None
 
     def deref(self, n):
         """strip casts and look through locals that stand for one expression (const locals, reference locals, uniform locals)"""
@@ -359,6 +483,12 @@ class Fn:
             return '...'
         k = n['k']
         r = lambda x: self.render(x, depth + 1, resolve)
+        if getattr(self, '_fwd', None) and (k == 'ArraySubscriptExpr' or (k == 'UnaryOperator' and n['op'] == '*')):
+            v = self._forwarded(n, depth, resolve)
+            if v is not None:
+                return v
+        if resolve and k == 'DeclRefExpr' and getattr(self, '_fwd', None) is not None and n.get('vid') in self.value_init and depth < 30:
+            return self.render(self.strip_all_casts(self.value_init[n['vid']]), depth + 6, resolve)
         if resolve and k == 'DeclRefExpr' and n.get('vid') in self.const_init and n.get('v') is None and depth < 30:
             # a const local stands for its initialiser (robust against hoisting an expression into a named const local)
             return self.render(self.strip_all_casts(self.const_init[n['vid']]), depth + 6, resolve)
@@ -517,6 +647,22 @@ class Facts:
             self._fn[key] = Fn(self.raw['functions'][key])
             self._fn[key].fx = self
         return self._fn[key]
+
+    def inl(self, fn):
+        """the same function with helpers that the pinned tree does not know (extracted since) expanded in place (rules/inline.py)"""
+        cache = self.__dict__.setdefault('_inl', {})
+        if fn.key not in cache:
+            from . import inline
+            kq = self.raw.get('_known_q') or set()
+            g, done = inline.inlined_copy(self.raw, fn.f, kq) if kq else (fn.f, [])
+            if done:
+                v = Fn(g)
+                v.fx = self
+                v.inlined = done
+                cache[fn.key] = v
+            else:
+                cache[fn.key] = fn
+        return cache[fn.key]
 
     def fns_named(self, q):
         """All functions (overloads, instantiations) whose plain qualified name is q."""
